@@ -9,6 +9,10 @@
                                  that writes it or lets its address escape, with the kind of the enclosing function
                                  (constructor, destructor, pthread_once routine, ordinary).
 
+  Lm/Generated/Threads.lean      for every function that Lib/core hands to another thread (m_thpool_add / pthread_create): everything
+                                 reachable from it through direct calls (functions defined in Lib/ are followed), the indirect
+                                 calls it makes, and every store through a pointer in the functions followed.
+
 The Lean side (Lm/Inst/CoreTie.lean) states what the model was written against and proves the generated tables equal to it.
 Anything the walkers do not understand raises Unsupported (a broken obligation, never a default)."""
 import json, os, subprocess, sys, glob
@@ -51,7 +55,14 @@ def pp(n):
     if k == 'StringLiteral':
         return n['value']
     if k == 'MemberExpr':
-        return pp(n['inner'][0]) + ('->' if n.get('isArrow') else '.') + n['name']
+        base, arrow = strip(n['inner'][0]), n.get('isArrow')
+        while base.get('kind') == 'MemberExpr' and not base.get('name'):
+            # member of an anonymous struct / union: `a->x` where x lives in an unnamed member of *a
+            arrow = base.get('isArrow')
+            base = strip(base['inner'][0])
+        if not n.get('name'):
+            return pp(base)
+        return pp(base) + ('->' if arrow else '.') + n['name']
     if k == 'UnaryOperator':
         op = n['opcode']
         x = pp(n['inner'][0])
@@ -322,6 +333,86 @@ def classify_use(ref, parents):
     return 'read'
 
 
+
+# ---------------------------------------------------------------- footprint of the functions run on other threads
+
+SPAWNERS = {'m_thpool_add': 1, 'pthread_create': 2}     # callee -> index of the argument that is the thread function
+
+
+def function_bodies(ast, idx):
+    for n in ast.get('inner', []):
+        if n.get('kind') == 'FunctionDecl' and any(c.get('kind') == 'CompoundStmt' for c in n.get('inner', [])):
+            idx.setdefault(n['name'], n)
+
+
+def walk(n, f, parents=()):
+    if not isinstance(n, dict):
+        return
+    f(n, parents)
+    for c in n.get('inner', []) or []:
+        walk(c, f, parents + (n,))
+
+
+def spawn_sites(ast):
+    """(spawning function, thread function) for every call of a spawner whose function argument is a function name"""
+    res = []
+    for fn in ast.get('inner', []):
+        if fn.get('kind') != 'FunctionDecl':
+            continue
+        def f(n, parents, fn=fn):
+            if n.get('kind') == 'CallExpr' and n.get('inner'):
+                callee = strip(n['inner'][0])
+                if callee.get('kind') == 'DeclRefExpr' and callee['referencedDecl']['name'] in SPAWNERS:
+                    i = SPAWNERS[callee['referencedDecl']['name']] + 1
+                    if i < len(n['inner']):
+                        a = strip(n['inner'][i])
+                        if a.get('kind') == 'DeclRefExpr' and a['referencedDecl'].get('kind') == 'FunctionDecl':
+                            res.append((fn['name'], a['referencedDecl']['name']))
+                        else:
+                            raise Unsupported('thread function of %s in %s is not a function name' % (callee['referencedDecl']['name'], fn['name']))
+        walk(fn, f)
+    return res
+
+
+def footprint(entry, bodies):
+    """(direct callees reachable, indirect callee expressions, stores through pointers) of a thread function"""
+    calls, indirect, writes = set(), set(), set()
+    todo, seen = [entry], set()
+    while todo:
+        name = todo.pop()
+        if name in seen or name not in bodies:
+            continue
+        seen.add(name)
+        def f(n, parents, name=name):
+            k = n.get('kind')
+            if k == 'CallExpr' and n.get('inner'):
+                c = strip(n['inner'][0])
+                if c.get('kind') == 'DeclRefExpr' and c['referencedDecl'].get('kind') == 'FunctionDecl':
+                    calls.add(c['referencedDecl']['name'])
+                    todo.append(c['referencedDecl']['name'])
+                else:
+                    try:
+                        indirect.add('%s: %s' % (name, pp(c)))
+                    except Unsupported:
+                        indirect.add('%s: ?' % name)
+            lhs = None
+            if k == 'BinaryOperator' and n.get('opcode') == '=':
+                lhs = n['inner'][0]
+            if k == 'CompoundAssignOperator':
+                lhs = n['inner'][0]
+            if k == 'UnaryOperator' and n.get('opcode') in ('++', '--'):
+                lhs = n['inner'][0]
+            if lhs is not None:
+                try:
+                    t = pp(lhs)
+                except Unsupported:
+                    t = '?'
+                if '->' in t or t.startswith('*') or '[' in t or t == '?':
+                    writes.add('%s: %s' % (name, t))
+        walk(bodies[name], f)
+    return sorted(calls), sorted(indirect), sorted(writes)
+
+
 def lean_str(s):
     return '"' + s.replace('\\', '\\\\').replace('"', '\\"').replace('\n', '\\n') + '"'
 
@@ -376,11 +467,13 @@ def generate(outdir):
 
     # ---- statics
     inv = {}
+    all_asts = {}
     fn_kinds, once = {}, set()
     for tu in ALL_TUS:
         if not os.path.exists(os.path.join(REPO, tu)):
             continue
         ast = asts.get(tu) or tu_ast(tu)
+        all_asts[tu] = ast
         fk, on = walk_statics(ast, tu, inv)
         for k, v in fk.items():
             if v != 'plain' or k not in fn_kinds:
@@ -411,14 +504,42 @@ def generate(outdir):
     S.append(']')
     S.append('end Lm.Generated.Statics')
     ch2 = write_if_changed(os.path.join(outdir, 'Statics.lean'), '\n'.join(S) + '\n')
-    return ch1 or ch2
+
+    # ---- thread functions spawned by Lib/core
+    bodies = {}
+    for tu in ALL_TUS:
+        if tu in all_asts:
+            function_bodies(all_asts[tu], bodies)
+    T = ['/- GENERATED by extract/gen_core.py from every translation unit of Lib/ (Linux build) — do not edit. -/',
+         'namespace Lm.Generated.Threads',
+         'structure Entry where', '  spawnedBy : String', '  entry : String', '  calls : List String', '  indirect : List String',
+         '  writes : List String', '  deriving DecidableEq, Repr',
+         '/-- every function Lib/core hands to another thread, with all it can reach: functions called directly (those defined in',
+         'Lib/ are followed), callee expressions of indirect calls, and stores through pointers (`function: lvalue`) -/',
+         'def entries : List Entry := [']
+    rows = []
+    for tu in ALL_TUS:
+        if not tu.startswith('Lib/core/') or tu not in all_asts:
+            continue
+        for by, entry in sorted(set(spawn_sites(all_asts[tu]))):
+            calls, ind, wr = footprint(entry, bodies)
+            if entry not in bodies:
+                raise Unsupported('thread function %s has no body in Lib/' % entry)
+            ls = lambda l: '[' + ', '.join(lean_str(x) for x in l) + ']'
+            rows.append('  { spawnedBy := %s, entry := %s, calls := %s, indirect := %s, writes := %s }' % (
+                lean_str(by), lean_str(entry), ls(calls), ls(ind), ls(wr)))
+    T.append(',\n'.join(rows))
+    T.append(']')
+    T.append('end Lm.Generated.Threads')
+    ch3 = write_if_changed(os.path.join(outdir, 'Threads.lean'), '\n'.join(T) + '\n')
+    return ch1 or ch2 or ch3
 
 
 if __name__ == '__main__':
     out = sys.argv[1] if len(sys.argv) > 1 else os.path.join(os.path.dirname(os.path.dirname(os.path.abspath(__file__))), 'lean', 'Lm', 'Generated')
     try:
         ch = generate(out)
-        print('generated CoreGuards.lean, Statics.lean', 'changed' if ch else 'unchanged')
+        print('generated CoreGuards.lean, Statics.lean, Threads.lean', 'changed' if ch else 'unchanged')
     except Unsupported as e:
         print('EXTRACT-FAIL', e)
         sys.exit(3)
